@@ -31,6 +31,8 @@ func main() {
 	switch prop {
 	case "C06":
 		rep = genC06(*seed, *tier, *out)
+	case "C11":
+		rep = genC11(*seed, *tier, *out)
 	default:
 		fmt.Println("unknown property", prop)
 		os.Exit(2)
